@@ -21,6 +21,12 @@ func addrOf(kind, id uint64) netip.Addr {
 		return netip.AddrFrom4(b)
 	case 2:
 		var b [16]byte
+		if id >= 1<<32 { // ids from 2^32 up stand for IPv4-mapped IPv6 addresses ::ffff:127.x.y.z (distinct registry keys)
+			b[10], b[11] = 0xff, 0xff
+			binary.BigEndian.PutUint32(b[12:], uint32(id))
+			b[12] = 127
+			return netip.AddrFrom16(b)
+		}
 		b[0] = 0xfd
 		binary.BigEndian.PutUint64(b[8:], id)
 		return netip.AddrFrom16(b)
@@ -40,6 +46,9 @@ func kindOf(a netip.Addr) (uint64, uint64) {
 		b := a.As4()
 		b[0] = 0
 		return 1, uint64(binary.BigEndian.Uint32(b[:]))
+	case a.Is4In6():
+		b := a.As16()
+		return 2, 1<<32 + uint64(b[13])<<16 + uint64(b[14])<<8 + uint64(b[15])
 	case a.Is6():
 		b := a.As16()
 		return 2, binary.BigEndian.Uint64(b[8:])
